@@ -27,6 +27,7 @@ import (
 	"sort"
 	"strings"
 	"sync"
+	"sync/atomic"
 	"testing"
 	"time"
 
@@ -116,22 +117,25 @@ type w12Conn struct {
 	id   int
 	addr string
 
-	mu          sync.Mutex
-	cond        *sync.Cond
-	cap         int
-	fast        bool
-	everManual  bool
-	buf         []byte // accepted by Write, not yet read by the upstream
-	wr          []byte // everything accepted by Write
-	rd          []byte // everything the upstream has read
-	chunks      []w12Chunk
-	localClosed bool
-	remoteReset bool
-	deadline    time.Time
-	dtimer      *time.Timer
-	failedW     int   // Write calls that returned an error
-	failedIdx   []int // workload packets whose Write call failed (the sender issues one Write per frame)
-	staleDL     int   // Write calls failed only because the deadline had expired before the call on a healthy conn
+	mu           sync.Mutex
+	cond         *sync.Cond
+	cap          int
+	fast         bool
+	everManual   bool
+	dead         bool   // the peer died silently: it never reads again and never resets (only the sender can end this connection)
+	buf          []byte // accepted by Write, not yet read by the upstream
+	wr           []byte // everything accepted by Write
+	rd           []byte // everything the upstream has read
+	chunks       []w12Chunk
+	localClosed  bool
+	remoteReset  bool
+	deadline     time.Time
+	dtimer       *time.Timer
+	failedW      int     // Write calls that returned an error
+	failedIdx    []int   // workload packets whose Write call failed (the sender issues one Write per frame)
+	failedReport float64 // byte counts of would-block reports whose Write call failed
+	blockedTO    int     // Write calls that sat on a full socket buffer until the write deadline
+	staleDL      int     // Write calls failed only because the deadline had expired before the call on a healthy conn
 
 	// scheduler-side parse state
 	parseOff    int
@@ -146,10 +150,32 @@ type w12Conn struct {
 
 func (c *w12Conn) now() time.Duration { return time.Since(c.w.t0) }
 
+// w12ReportValue decodes a would-block report body (TL1 boxed addMetricsBatch with one
+// __src_client_write_err metric) and returns the byte count it carries.
+func w12ReportValue(body []byte) (float64, error) {
+	var batch tlstatshouse.AddMetricsBatch
+	tail, err := batch.ReadTL1Boxed(body)
+	if err != nil {
+		return 0, err
+	}
+	if len(tail) != 0 || len(batch.Metrics) != 1 || batch.Metrics[0].Name != "__src_client_write_err" {
+		return 0, errors.New("not a single __src_client_write_err metric")
+	}
+	var sum float64
+	for _, v := range batch.Metrics[0].Value {
+		sum += v
+	}
+	return sum, nil
+}
+
 func (c *w12Conn) noteFail(p []byte, n int) {
 	c.failedW++
 	if len(p) >= pktHeadLen+w12MinPayload && bytes.Equal(p[pktHeadLen:pktHeadLen+4], w12Magic[:]) {
 		c.failedIdx = append(c.failedIdx, int(binary.LittleEndian.Uint32(p[pktHeadLen+4:])))
+	} else if len(p) > pktHeadLen {
+		if v, err := w12ReportValue(p[pktHeadLen:]); err == nil {
+			c.failedReport += v
+		}
 	}
 }
 
@@ -175,6 +201,9 @@ func (c *w12Conn) Write(p []byte) (int, error) {
 		if !c.deadline.IsZero() && !time.Now().Before(c.deadline) {
 			if first && !c.everManual {
 				c.staleDL++
+			}
+			if !first {
+				c.blockedTO++
 			}
 			c.noteFail(p, n)
 			return n, w12Timeout{}
@@ -263,9 +292,24 @@ func (c *w12Conn) open() bool {
 	return !c.localClosed && !c.remoteReset
 }
 
+func (c *w12Conn) kill() {
+	c.mu.Lock()
+	defer c.mu.Unlock()
+	c.fast, c.everManual, c.dead = false, true, true
+}
+
+func (c *w12Conn) isDead() bool {
+	c.mu.Lock()
+	defer c.mu.Unlock()
+	return c.dead
+}
+
 func (c *w12Conn) setFast(fast bool) {
 	c.mu.Lock()
 	defer c.mu.Unlock()
+	if c.dead {
+		return
+	}
 	c.fast = fast
 	if !fast {
 		c.everManual = true
@@ -314,6 +358,29 @@ func (c *w12Conn) stopTimer() {
 	c.mu.Unlock()
 }
 
+// ---------------------------------------------------------------- burst gate
+
+// w12GateLocker replaces pktBuffer.cond.L (which is &pktBuffer.mu) by a locker that locks the same
+// mutex, but first waits while a burst is in progress. A burst offers many packets at one instant
+// "before any sender is scheduled"; the senders are woken by push's cond.Signal and would normally
+// not run before the scheduler goroutine blocks, but the Go runtime may preempt it (GC, >10 ms time
+// slice on a loaded machine) and let a sender swap a half-filled buffer. With the gate a woken
+// sender parks (durably, on a channel) until the burst is over: the same legal schedule, made
+// independent of preemption. Outside bursts the locker is a pass-through.
+type w12GateLocker struct {
+	mu   *sync.Mutex
+	gate *atomic.Pointer[chan struct{}]
+}
+
+func (g *w12GateLocker) Lock() {
+	if ch := g.gate.Load(); ch != nil {
+		<-*ch
+	}
+	g.mu.Lock()
+}
+
+func (g *w12GateLocker) Unlock() { g.mu.Unlock() }
+
 // ---------------------------------------------------------------- world
 
 const (
@@ -352,6 +419,7 @@ type w12World struct {
 	// sender gets its first connection does not depend on which start-up goroutine ran first
 	startGate chan struct{}
 	nextID    int
+	burstGate atomic.Pointer[chan struct{}]
 
 	pkts      []w12Pkt
 	failovers int
@@ -515,9 +583,10 @@ func (w *w12World) observe() {
 			r.Event("upstream", "t=%v conn c%d accepted on %s fast=%v", w.now(), c.id, c.addr, c.fast)
 		}
 		lo, hi, cnt := -1, -1, 0
+		var lastAt time.Duration
 		flush := func() {
 			if cnt > 0 {
-				r.Event("upstream", "t=%v c%d read pkts %d..%d (%d)", w.now(), c.id, lo, hi, cnt)
+				r.Event("upstream", "t=%v c%d has read pkts %d..%d (%d), last at t=%v", w.now(), c.id, lo, hi, cnt, lastAt)
 			}
 			lo, hi, cnt = -1, -1, 0
 		}
@@ -585,6 +654,7 @@ func (w *w12World) observe() {
 					break
 				}
 				p.seenT, p.seenConn = at, c.id
+				lastAt = at
 				c.lastIdx = idx
 				c.frames = append(c.frames, w12Frame{0, idx, at})
 				if cnt > 0 && idx == hi+1 {
@@ -595,15 +665,10 @@ func (w *w12World) observe() {
 				}
 			} else {
 				flush()
-				var batch tlstatshouse.AddMetricsBatch
-				tail, err := batch.ReadTL1Boxed(body)
-				if err != nil || len(tail) != 0 || len(batch.Metrics) != 1 || batch.Metrics[0].Name != "__src_client_write_err" {
-					w.fail("stream_format", "foreign-frame", "conn c%d: frame of %d bytes is neither an accepted packet nor a write-error report (err=%v)", c.id, n, err)
+				sum, err := w12ReportValue(body)
+				if err != nil {
+					w.fail("stream_format", "foreign-frame", "conn c%d: frame of %d bytes is neither an accepted packet nor a write-error report (%v)", c.id, n, err)
 					break
-				}
-				var sum float64
-				for _, v := range batch.Metrics[0].Value {
-					sum += v
 				}
 				w.reported += sum
 				w.reportFrames++
@@ -741,6 +806,13 @@ func (w *w12World) pushMany(k, sizeClass, yieldEvery int) {
 	}
 	drop0, fo0 := w.droppedCount, w.failovers
 	runtime.Gosched() // fresh time slice for the burst
+	gate := make(chan struct{})
+	w.burstGate.Store(&gate)
+	openGate := func() {
+		w.burstGate.Store(nil)
+		close(gate)
+	}
+	defer func() { openGate() }()
 	for i := 0; i < k && !r.Failed(); i++ {
 		if !w.push(bodies[i]) {
 			// The runtime preempted this goroutine inside the burst and a sender consumed a buffer
@@ -751,9 +823,12 @@ func (w *w12World) pushMany(k, sizeClass, yieldEvery int) {
 			return
 		}
 		if yieldEvery > 0 && (i+1)%yieldEvery == 0 && i+1 < k {
+			openGate()
 			time.Sleep(time.Microsecond)
 			verifsim.Wait()
 			runtime.Gosched()
+			gate = make(chan struct{})
+			w.burstGate.Store(&gate)
 		}
 	}
 	n := len(w.pkts) - first
@@ -801,6 +876,12 @@ func w12Run(r *verifsim.Run) {
 		list = []string{"10.0.0.1:13338", "10.0.0.2:13338", "10.0.0.3:13338"}
 	default:
 		list = []string{"10.0.0.1:13338", "10.0.0.2:13338", "10.0.0.3:13338", "10.0.0.4:13338"}
+	}
+	if os.Getenv("W12_SINGLE_ADDR") != "" {
+		// Outside the claimed scope (world.json assumptions): with ONE upstream address the secondary
+		// sender has no address at all, and packets that fail over to it are stranded. Knob kept only to
+		// reproduce that observation by hand; never set by ./check.
+		list = list[:1]
 	}
 	cfg.Address = strings.Join(list, ",")
 	for _, a := range list {
@@ -868,6 +949,10 @@ func w12Run(r *verifsim.Run) {
 	w.settle = w.dialTimeout + 2*w.reconnectDelay + 2*time.Second
 	r.Event("sim", "t=%v egress started bound=%v settle=%v", w.now(), w.bound, w.settle)
 	verifsim.Wait()
+	// senders are parked (cond.Wait, sleep or dial): install the burst gate (see w12GateLocker)
+	for _, b := range []*pktBuffer{w.eg.pool.primary.buf, w.eg.pool.secondary.buf} {
+		b.cond.L = &w12GateLocker{mu: &b.mu, gate: &w.burstGate}
+	}
 	w.observe()
 	w.tick(w.settle)
 
@@ -881,16 +966,17 @@ func w12Run(r *verifsim.Run) {
 		aReset
 		aAddr
 		aHeal
+		aDead
 	)
 	for step := 0; step < nsteps && !r.Failed() && !w.disturbed; step++ {
 		acts := []int{aPush1, aSleep, aBurst, aPush1, aSleep, aBurst}
 		if faultClass >= 1 {
 			if len(w.openConns()) > 0 {
-				acts = append(acts, aStall, aReset, aStall)
+				acts = append(acts, aStall, aReset, aStall, aDead)
 			}
 			for _, cn := range w.openConns() {
 				cn.mu.Lock()
-				pending := !cn.fast && len(cn.buf) > 0
+				pending := !cn.fast && !cn.dead && len(cn.buf) > 0
 				cn.mu.Unlock()
 				if pending {
 					acts = append(acts, aPull, aPull)
@@ -934,14 +1020,29 @@ func w12Run(r *verifsim.Run) {
 			r.Sched(fmt.Sprintf("burst%d", k/100), "ingress")
 			w.pushMany(k, sizeClass, yieldEvery)
 			w.tick(0)
+		case aDead:
+			oc := w.openConns()
+			cn := oc[c.Intn(len(oc), "dead.conn")]
+			r.Sched("dead", "upstream")
+			if !cn.isDead() {
+				cn.kill()
+				r.Fault("upstream_peer_dies_silently")
+				w.faultsFired++
+				r.Event("upstream", "t=%v c%d: peer dies silently (never reads again, no reset)", w.now(), cn.id)
+			}
+			w.noteHealth()
+			w.tick(0)
 		case aStall:
 			oc := w.openConns()
 			cn := oc[c.Intn(len(oc), "stall.conn")]
 			cn.mu.Lock()
 			fast := cn.fast
+			dead := cn.dead
 			cn.mu.Unlock()
 			r.Sched("stall", "upstream")
-			if fast {
+			if dead {
+				r.Event("upstream", "t=%v c%d stays dead", w.now(), cn.id)
+			} else if fast {
 				cn.setFast(false)
 				r.Fault("upstream_stalls")
 				w.faultsFired++
@@ -956,7 +1057,7 @@ func w12Run(r *verifsim.Run) {
 			var cands []*w12Conn
 			for _, cn := range w.openConns() {
 				cn.mu.Lock()
-				if !cn.fast && len(cn.buf) > 0 {
+				if !cn.fast && !cn.dead && len(cn.buf) > 0 {
 					cands = append(cands, cn)
 				}
 				cn.mu.Unlock()
@@ -1010,6 +1111,14 @@ func w12Run(r *verifsim.Run) {
 		w.heal()
 		w.tick(0)
 		quiet := w.settle + w.bound + time.Second
+		for _, cn := range w.openConns() {
+			if cn.isDead() {
+				// only the sender's write deadline can get it off a dead connection
+				quiet += w.writeTimeout + 3*time.Second
+				r.Probe("run_ends_with_dead_peer_connection")
+				break
+			}
+		}
 		r.Event("sim", "t=%v silence for %v", w.now(), quiet)
 		for i := 0; i < 4 && !r.Failed(); i++ {
 			w.tick(quiet / 4)
@@ -1018,6 +1127,7 @@ func w12Run(r *verifsim.Run) {
 	if !r.Failed() {
 		w.finalChecks()
 	}
+
 	r.SimNanos = int64(w.now())
 }
 
@@ -1030,7 +1140,7 @@ func (w *w12World) heal() {
 	for _, cn := range w.openConns() {
 		cn.setFast(true)
 	}
-	w.r.Event("upstream", "t=%v healed: all addresses up, all open connections read fast", w.now())
+	w.r.Event("upstream", "t=%v healed: all addresses up, all live connections read fast", w.now())
 	w.noteHealth()
 }
 
@@ -1043,6 +1153,7 @@ func (w *w12World) finalChecks() {
 	// stalled and never read, and the frame whose write call failed on such a connection
 	excused := map[int]bool{}
 	anon := 0
+	reportLost := 0.0 // reports that a reset/stalled connection swallowed
 	failedConns := 0
 	for _, c := range conns {
 		c.mu.Lock()
@@ -1053,6 +1164,7 @@ func (w *w12World) finalChecks() {
 			for _, idx := range c.failedIdx {
 				excused[idx] = true
 			}
+			reportLost += c.failedReport
 			// frames in wr beyond what was read
 			off := c.parseOff
 			if !c.hsDone {
@@ -1067,6 +1179,12 @@ func (w *w12World) finalChecks() {
 				n := int(binary.LittleEndian.Uint32(rest))
 				if bytes.Equal(rest[pktHeadLen:pktHeadLen+4], w12Magic[:]) {
 					excused[int(binary.LittleEndian.Uint32(rest[pktHeadLen+4:]))] = true
+				} else if len(rest) >= pktHeadLen+n {
+					if v, err := w12ReportValue(rest[pktHeadLen : pktHeadLen+n]); err == nil {
+						reportLost += v
+					}
+				} else {
+					reportLost += float64(w.droppedFrames) // a torn frame that is not a workload packet: a report, value unknown
 				}
 				off += pktHeadLen + n
 			}
@@ -1076,19 +1194,27 @@ func (w *w12World) finalChecks() {
 		if c.staleDL > 0 {
 			r.Probe("write_failed_on_stale_deadline")
 		}
+		if c.blockedTO > 0 {
+			r.Probe("write_deadline_expired_on_stalled_conn")
+		}
+		if c.failedReport > 0 {
+			r.Probe("drop_report_write_failed")
+		}
 		c.mu.Unlock()
 	}
 	if r.Failed() {
 		return
 	}
 
+	batchWait := false
 	// bounded delay, checked only where the upstream was healthy around the acceptance
 	for idx := range w.pkts {
 		p := &w.pkts[idx]
 		if !p.accepted {
 			continue
 		}
-		if p.seen > 0 && p.seenT-p.tAccept > w.bound/2 {
+		if p.seen > 0 && p.seenT-p.tAccept > w.bound/3 && !batchWait {
+			batchWait = true
 			r.Probe("delivered_after_batch_wait")
 		}
 		if !w.healthyAround(p.tAccept, end) {
@@ -1144,6 +1270,13 @@ func (w *w12World) finalChecks() {
 		if w.faultsFired == 0 {
 			sig = "fault-free"
 		}
+		for _, c := range conns {
+			c.mu.Lock()
+			if c.dead && !c.localClosed {
+				sig = "sender-stuck-on-dead-peer" // still writing to a connection whose peer died long ago
+			}
+			c.mu.Unlock()
+		}
 		w.fail("not_forwarded", sig, "%d accepted packet(s) (first #%d, accepted at t=%v) never reached the upstream although it was healthy for the last %v and no reset/stalled connection held them",
 			lost, firstLost, w.pkts[firstLost].tAccept, w.settle+w.bound)
 		return
@@ -1159,25 +1292,23 @@ func (w *w12World) finalChecks() {
 		return
 	}
 
-	// every drop reported upstream (byte count), exactly when nothing could have eaten the report
+	// every drop reported upstream (byte count): what the upstream read, plus what reset/stalled
+	// connections swallowed, covers the dropped payload bytes; never more than the dropped frames
 	if w.reported > float64(w.droppedFrames) {
 		w.fail("drop_reported", "over-reported", "upstream was told %v dropped bytes, only %d (with length frames) were dropped", w.reported, w.droppedFrames)
 		return
 	}
-	totalFailed := 0
-	for _, c := range conns {
-		c.mu.Lock()
-		totalFailed += c.failedW
-		c.mu.Unlock()
-	}
-	if w.droppedCount > 0 && totalFailed == 0 {
-		r.Extra["drop_report_checked"]++
-		if w.reported < float64(w.droppedBodies) {
+	if w.droppedCount > 0 {
+		if reportLost == 0 {
+			r.Extra["drop_report_checked_strictly"]++
+		}
+		if w.reported+reportLost < float64(w.droppedBodies) {
 			sig := "under-reported"
 			if w.reportFrames == 0 {
 				sig = "never-reported"
 			}
-			w.fail("drop_reported", sig, "%d packets (%d payload bytes) were dropped, upstream was told %v bytes in %d report(s)", w.droppedCount, w.droppedBodies, w.reported, w.reportFrames)
+			w.fail("drop_reported", sig, "%d packets (%d payload bytes) were dropped, upstream was told %v bytes in %d report(s) (%v more bytes of reports died with reset/stalled connections)",
+				w.droppedCount, w.droppedBodies, w.reported, w.reportFrames, reportLost)
 			return
 		}
 	}
